@@ -111,6 +111,8 @@ impl Core {
 
         // Ensure we won't vote for contradicting blocks.
         self.increase_last_voted_round(block.round);
+        #[cfg(hotstuff_verif)]
+        crate::verif::emit(crate::verif::Event::Vote { node: self.name, hash: block.digest(), round: block.round });
         // TODO [issue #15]: Write to storage preferred_round and last_voted_round.
         Some(Vote::new(block, self.name, self.signature_service.clone()).await)
     }
@@ -149,6 +151,8 @@ impl Core {
                 }
             }
             debug!("Committed {:?}", block);
+            #[cfg(hotstuff_verif)]
+            crate::verif::emit(crate::verif::Event::Commit { node: self.name, block: block.clone() });
             if let Err(e) = self.tx_commit.send(block).await {
                 warn!("Failed to send block through the commit channel: {}", e);
             }
@@ -164,6 +168,8 @@ impl Core {
 
     async fn local_timeout_round(&mut self) -> ConsensusResult<()> {
         warn!("Timeout reached for round {}", self.round);
+        #[cfg(hotstuff_verif)]
+        crate::verif::emit(crate::verif::Event::Begin { node: self.name, input: crate::verif::Input::Timer });
 
         // Increase the last voted round.
         self.increase_last_voted_round(self.round);
@@ -177,6 +183,8 @@ impl Core {
         )
         .await;
         debug!("Created {:?}", timeout);
+        #[cfg(hotstuff_verif)]
+        crate::verif::emit(crate::verif::Event::Timeout { node: self.name, round: timeout.round, high_qc: timeout.high_qc.clone() });
 
         // Reset the timer.
         self.timer.reset();
@@ -202,6 +210,11 @@ impl Core {
     #[async_recursion]
     async fn handle_vote(&mut self, vote: &Vote) -> ConsensusResult<()> {
         debug!("Processing {:?}", vote);
+        #[cfg(hotstuff_verif)]
+        crate::verif::emit(crate::verif::Event::Begin {
+            node: self.name,
+            input: crate::verif::Input::Vote { hash: vote.hash.clone(), round: vote.round, author: vote.author },
+        });
         if vote.round < self.round {
             return Ok(());
         }
@@ -212,6 +225,8 @@ impl Core {
         // Add the new vote to our aggregator and see if we have a quorum.
         if let Some(qc) = self.aggregator.add_vote(vote.clone())? {
             debug!("Assembled {:?}", qc);
+            #[cfg(hotstuff_verif)]
+            crate::verif::emit(crate::verif::Event::QC { node: self.name, qc: qc.clone() });
 
             // Process the QC.
             self.process_qc(&qc).await;
@@ -226,6 +241,11 @@ impl Core {
 
     async fn handle_timeout(&mut self, timeout: &Timeout) -> ConsensusResult<()> {
         debug!("Processing {:?}", timeout);
+        #[cfg(hotstuff_verif)]
+        crate::verif::emit(crate::verif::Event::Begin {
+            node: self.name,
+            input: crate::verif::Input::Timeout { round: timeout.round, author: timeout.author, high_qc_round: timeout.high_qc.round },
+        });
         if timeout.round < self.round {
             return Ok(());
         }
@@ -239,6 +259,8 @@ impl Core {
         // Add the new vote to our aggregator and see if we have a quorum.
         if let Some(tc) = self.aggregator.add_timeout(timeout.clone())? {
             debug!("Assembled {:?}", tc);
+            #[cfg(hotstuff_verif)]
+            crate::verif::emit(crate::verif::Event::TC { node: self.name, tc: tc.clone() });
 
             // Try to advance the round.
             self.advance_round(tc.round).await;
@@ -272,6 +294,8 @@ impl Core {
         }
         // Reset the timer and advance round.
         self.timer.reset();
+        #[cfg(hotstuff_verif)]
+        crate::verif::emit(crate::verif::Event::Round { node: self.name, from: self.round, to: round + 1 });
         self.round = round + 1;
         debug!("Moved to round {}", self.round);
 
@@ -281,6 +305,8 @@ impl Core {
 
     #[async_recursion]
     async fn generate_proposal(&mut self, tc: Option<TC>) {
+        #[cfg(hotstuff_verif)]
+        crate::verif::emit(crate::verif::Event::Make { node: self.name, round: self.round, qc: self.high_qc.clone(), tc: tc.clone() });
         self.tx_proposer
             .send(ProposerMessage::Make(self.round, self.high_qc.clone(), tc))
             .await
@@ -309,6 +335,8 @@ impl Core {
     #[async_recursion]
     async fn process_block(&mut self, block: &Block) -> ConsensusResult<()> {
         debug!("Processing {:?}", block);
+        #[cfg(hotstuff_verif)]
+        crate::verif::emit(crate::verif::Event::Process { node: self.name, digest: block.digest(), round: block.round });
 
         // Let's see if we have the last three ancestors of the block, that is:
         //      b0 <- |qc0; b1| <- |qc1; block|
@@ -364,6 +392,11 @@ impl Core {
 
     async fn handle_proposal(&mut self, block: &Block) -> ConsensusResult<()> {
         let digest = block.digest();
+        #[cfg(hotstuff_verif)]
+        crate::verif::emit(crate::verif::Event::Begin {
+            node: self.name,
+            input: crate::verif::Input::Propose { digest: digest.clone(), round: block.round, author: block.author },
+        });
 
         // Ensure the block proposer is the right leader for the round.
         ensure!(
@@ -398,6 +431,8 @@ impl Core {
     }
 
     async fn handle_tc(&mut self, tc: TC) -> ConsensusResult<()> {
+        #[cfg(hotstuff_verif)]
+        crate::verif::emit(crate::verif::Event::Begin { node: self.name, input: crate::verif::Input::TC { round: tc.round } });
         tc.verify(&self.committee)?;
         if tc.round < self.round {
             return Ok(());
@@ -431,6 +466,15 @@ impl Core {
                 Some(block) = self.rx_loopback.recv() => self.process_block(&block).await,
                 () = &mut self.timer => self.local_timeout_round().await,
             };
+            #[cfg(hotstuff_verif)]
+            crate::verif::emit(crate::verif::Event::End {
+                node: self.name,
+                error: result.as_ref().err().map(|e| e.to_string()),
+                round: self.round,
+                last_voted_round: self.last_voted_round,
+                last_committed_round: self.last_committed_round,
+                high_qc_round: self.high_qc.round,
+            });
             match result {
                 Ok(()) => (),
                 Err(ConsensusError::StoreError(e)) => error!("{}", e),
